@@ -3,6 +3,8 @@ C20 - Plugin installation follows the version rules and never half-replaces a pl
 Property theorems; the model is in `Model/C20.lean`, helper lemmas in `Lemmas/C20*.lean`.
 -/
 import NotationModel.Lemmas.C20Install
+import NotationModel.Generated.SrcC20
+import NotationModel.Generated.SrcC20b
 set_option linter.unusedSimpArgs false
 set_option linter.unusedVariables false
 
@@ -14,10 +16,10 @@ namespace NotationModel.C20
 theorem semver_regex_pinned : Facts.semverRegex =
     "^(0|[1-9]\\d*)\\.(0|[1-9]\\d*)\\.(0|[1-9]\\d*)(?:-((?:0|[1-9]\\d*|\\d*[a-zA-Z-][0-9a-zA-Z-]*)(?:\\.(?:0|[1-9]\\d*|\\d*[a-zA-Z-][0-9a-zA-Z-]*))*))?(?:\\+([0-9a-zA-Z-]+(?:\\.[0-9a-zA-Z-]+)*))?$" := rfl
 
-/-- `IsValid` is the regex; `ComparePluginVersion` = both valid, then x/mod/semver.Compare with "v" -/
+/-- `IsValid` is the regex (what `ComparePluginVersion` does with it is no longer pinned as text:
+the translated function is tied to the model in section 5, `Tie`) -/
 theorem semver_calls_pinned :
-    Facts.semverIsValidCalls = ["semVerRegEx.MatchString(version)"] ∧
-    Facts.semverCompareCalls = ["IsValid(v)", "IsValid(w)", "semver.Compare(\"v\"+v,\"v\"+w)"] := by
+    Facts.semverIsValidCalls = ["semVerRegEx.MatchString(version)"] := by
   decide
 
 /-- both directory walks skip every sub-directory (and only the root is not skipped) -/
@@ -42,10 +44,12 @@ the first write (`setExecutable` on the candidate of a source directory); every 
 metadata, existing plugin, versions) comes before the removal of the old directory, and only
 the copy follows it -/
 theorem removal_after_all_checks :
-    Facts.installCalls = ["parsePluginFromDir", "parsePluginName", "isExecutableFile", "validatePluginName",
+    Facts.installCalls.take 13 = ["parsePluginFromDir", "parsePluginName", "isExecutableFile", "validatePluginName",
       "isPathWithin", "isExecutableFile", "setExecutable", "NewCLIPlugin", "newPlugin.GetMetadata", "m.Get",
-      "existingPlugin.GetMetadata", "semver.ComparePluginVersion", "m.Uninstall", "file.CopyToDir",
-      "file.CopyDirToDir"] ∧
+      "existingPlugin.GetMetadata", "semver.ComparePluginVersion", "m.Uninstall"] ∧
+    -- after the clean-up only the two copies, in whatever order the branches are written
+    (Facts.installCalls.drop 13).length = 2 ∧
+    (Facts.installCalls.drop 13).all (fun c => c == "file.CopyToDir" || c == "file.CopyDirToDir") = true ∧
     Facts.parseDirWrites = [] ∧
     Facts.installWithinGuard = "isPathWithin(installOpts.PluginPath,pluginDirPath)" ∧
     Facts.isPathWithinCalls = ["filepath.Rel(resolve(dir),resolve(path))",
@@ -1021,7 +1025,7 @@ private def extra (n : String) (cid : Nat) : Entry := ⟨.file, t n, false, fals
 private def instFile (v : String) (cid : Nat) (ow : Bool := false) : Op :=
   ⟨.install, [], ow, false, t "notation-foo", [], false, [exeFoo v cid]⟩
 private def instDir (es : List Entry) (ow : Bool := false) : Op := ⟨.install, [], ow, true, t "pkg", [], false, es⟩
-private def seq (ops : List Op) : Input := ⟨"seq", false, ops, [], []⟩
+private def seq (ops : List Op) : Input := ⟨"seq", false, "none", ops, [], []⟩
 private def errs (i : Input) : List Err := (run i).steps.map (·.err)
 private def versions (i : Input) : List (List (Option Text)) := (run i).steps.map (fun s => s.root.map (·.version))
 
@@ -1159,5 +1163,176 @@ example : Holds (seq [instFile "1.1.0" 1, instFile "1.0.0" 2])
       ⟨.downgrade, none, none, [], []⟩], false, false, none⟩ = false := by decide
 
 end examples
+
+/-! ## 5. tie to the translated source (`Generated/SrcC20.lean`, rewritten from the Go code on every run) -/
+
+namespace Tie
+open NotationModel.Src
+
+/-- what the two library oracles have to do for the tie: the regular expression engine on
+`semVerRegEx` decides the model's grammar (the pattern text is pinned by
+`semver_regex_pinned`, the agreement is what the semver stream of the harness samples), and
+`x/mod/semver.Compare` on two "v"-prefixed valid versions is the model's precedence -/
+structure EnvOk (env : semver.Env) : Prop where
+  regex : ∀ s : String, env.MatchString s = isValid s.toList
+  compare : ∀ (v w : String) (a b : Version), parseVersion v.toList = some a → parseVersion w.toList = some b →
+    env.Compare ("v" ++ v) ("v" ++ w) = ordInt (cmpVersion a b)
+
+/-- what a caller sees: the comparison result, or "error" -/
+def shape (r : Int × Option GoLite.Err) : Option Int :=
+  match r.2 with
+  | some _ => none
+  | none => some r.1
+
+theorem source_IsValid_refines_model (env : semver.Env) (h : EnvOk env) (s : String) :
+    semver.IsValid env s = isValid s.toList := by
+  unfold semver.IsValid
+  simp [Id.run, GoLite.idPure, h.regex]
+
+/-- **`semver.ComparePluginVersion` as written in Go computes the model's `compareVersions`**,
+for all strings: an error exactly when one of the two is not a version, else the precedence -/
+theorem source_ComparePluginVersion_refines_model (env : semver.Env) (h : EnvOk env) (v w : String) :
+    shape (semver.ComparePluginVersion env v w) = (compareVersions v.toList w.toList).map ordInt := by
+  unfold semver.ComparePluginVersion
+  simp only [source_IsValid_refines_model env h, isValid, semver.add_eq_append]
+  unfold compareVersions
+  -- both parse results first: the order in which the Go code checks them does not matter
+  cases hv : parseVersion v.toList with
+  | none =>
+    cases hw : parseVersion w.toList <;>
+      simp [Id.run, GoLite.idPure, shape] <;> (try (repeat' split)) <;> first | rfl | simp_all
+  | some a =>
+    cases hw : parseVersion w.toList with
+    | none => simp [Id.run, GoLite.idPure, shape] <;> (try (repeat' split)) <;> first | rfl | simp_all
+    | some b => simp [Id.run, GoLite.idPure, shape, h.compare v w a b hv hw]
+
+/-- non-vacuity: the translated function runs (with a toy oracle that knows two versions) -/
+example : (semver.ComparePluginVersion
+    ⟨fun s => s == "1.0.0" || s == "1.1.0", fun a b => if a == b then 0 else if a == "v1.0.0" then -1 else 1⟩
+    "1.0.0" "1.1.0").1 = -1 := by decide
+example : shape (semver.ComparePluginVersion ⟨fun s => s == "1.0.0", fun _ _ => 0⟩ "1.0" "1.0.0") = none := by decide
+
+/-! ### the tail of `CLIManager.Install`: existence, version decision, clean-up, copy -/
+
+/-- the class of an error of Install as the harness observes it (typed errors by their type) -/
+def classOf (e : GoLite.Err) : Err :=
+  if e.kind = "PluginDowngradeError" then .downgrade
+  else if e.kind = "InstallEqualVersionError" then .equalVersion else .other
+
+/-- what a caller sees: the class of the error, or success and the existing plugin's version -/
+def outcomeOf (r : Option plugin.GetMetadataResponse × Option plugin.GetMetadataResponse × Option GoLite.Err) :
+    Err × Option Text :=
+  match r.2.2 with
+  | some e => (classOf e, none)
+  | none => (.ok, r.1.map (·.Version.toList))
+
+/-- the existing plugin as the oracles show it: `none` = `Get` fails (no such executable);
+`some ex` = it is there and `ex` is what it answers (`none`: `GetMetadata` fails) -/
+def existingOf (env : plugin.Env) (name : String) : Option (Option Text) :=
+  match env.Get name with
+  | (_, some _) => none
+  | (p, none) =>
+    match env.GetMetadata p default with
+    | (some m, none) => some (some m.Version.toList)
+    | _ => some none
+
+/-- the model's decision: `versionRule` with the state lookup replaced by its result -/
+def decision (ex : Option (Option Text)) (ow : Bool) (vn : Text) : Err × Option Text :=
+  match ex with
+  | none => (.ok, none)
+  | some ex =>
+    match versionCheck ex ow vn with
+    | .error e => (e, none)
+    | .ok r => (.ok, r)
+
+/-- the world the model assumes: `Get` fails only with "no such file", `GetMetadata` returns a
+response or an error, the comparison is `compareVersions` (see
+`source_ComparePluginVersion_refines_model`), clean-up and copy do not fail (I/O errors are
+outside the model); the errors of the oracles are not of Install's two typed classes
+(`fmt.Errorf("..%w..")` would let `errors.As` see through the wrapping) -/
+structure WorldOk (env : plugin.Env) (name exe dir path : String) : Prop where
+  get : ∀ e, (env.Get name).2 = some e → e = os.ErrNotExist
+  md : ∀ p, (∃ m, env.GetMetadata p default = (some m, none)) ∨
+    (∃ e, env.GetMetadata p default = (none, some e) ∧ classOf e = .other)
+  cmpErr : ∀ (a b : String) (c : Int) (e : GoLite.Err), env.ComparePluginVersion a b = (c, some e) → classOf e = .other
+  cmp : ∀ a b : String, shape (env.ComparePluginVersion a b) = (compareVersions a.toList b.toList).map ordInt
+  uninstall : env.Uninstall name = none ∨ env.Uninstall name = some os.ErrNotExist
+  copyFile : env.CopyToDir exe dir = none
+  copyDir : env.CopyDirToDir path dir = none
+
+/-- **the existence / version decision of `CLIManager.Install` as written in Go is the model's
+`versionCheck`** (refusal classes, the overwrite rule, which existing metadata is returned),
+and nothing after it can refuse -/
+theorem source_installTail_refines_model (env : plugin.Env) (ow : Bool) (name : String)
+    (nm : plugin.GetMetadataResponse) (nonDir : Bool) (exe dir : String) (opts : plugin.CLIInstallOptions)
+    (h : WorldOk env name exe dir opts.PluginPath) :
+    outcomeOf (plugin.installTail env ow name (some nm) nonDir exe dir opts none) =
+      decision (existingOf env name) ow nm.Version.toList := by
+  have hcp1 := h.copyFile
+  have hcp2 := h.copyDir
+  unfold plugin.installTail existingOf
+  rcases hG : env.Get name with ⟨p, eg⟩
+  cases eg with
+  | some e =>
+    have he : e = os.ErrNotExist := h.get e (by rw [hG])
+    subst he
+    rcases h.uninstall with hu | hu <;> cases nonDir <;>
+      simp [Id.run, GoLite.idPure, GoLite.errIs, hu, hcp1, hcp2, outcomeOf, decision]
+  | none =>
+    rcases h.md p with ⟨m, hm⟩ | ⟨e, hm, hce⟩
+    · cases ow
+      · -- no overwrite: compare
+        rcases hC : env.ComparePluginVersion nm.Version m.Version with ⟨c, ec⟩
+        have hc := h.cmp nm.Version m.Version
+        rw [hC] at hc
+        cases hcv : compareVersions nm.Version.toList m.Version.toList with
+        | none =>
+          rw [hcv] at hc
+          cases ec with
+          | none => simp [shape] at hc
+          | some e3 =>
+            have hce := h.cmpErr _ _ _ _ hC
+            simp [Id.run, GoLite.idPure, GoLite.deref, hm, hC, outcomeOf, decision, versionCheck, hcv, GoLite.wrapf, hce]
+        | some o =>
+          rw [hcv] at hc
+          cases ec with
+          | some e3 => simp [shape] at hc
+          | none =>
+            have hco : c = ordInt o := by simpa [shape] using hc
+            subst hco
+            rcases h.uninstall with hu | hu <;> cases nonDir <;> cases o <;>
+              simp [Id.run, GoLite.idPure, GoLite.errIs, GoLite.deref, hm, hC, hu, hcp1, hcp2, outcomeOf, decision,
+                versionCheck, hcv, classOf, GoLite.errT, ordInt]
+      · rcases h.uninstall with hu | hu <;> cases nonDir <;>
+          simp [Id.run, GoLite.idPure, GoLite.errIs, hm, hu, hcp1, hcp2, outcomeOf, decision, versionCheck]
+    · cases ow
+      · simp [Id.run, GoLite.idPure, hm, outcomeOf, decision, versionCheck, GoLite.wrapf, hce]
+      · rcases h.uninstall with hu | hu <;> cases nonDir <;>
+          simp [Id.run, GoLite.idPure, GoLite.errIs, hm, hu, hcp1, hcp2, outcomeOf, decision, versionCheck]
+
+/-- the comparison oracle of the tail can be the translated `semver.ComparePluginVersion`: the
+two ties compose -/
+theorem worldOk_cmp_of_semver (senv : semver.Env) (h : EnvOk senv) (a b : String) :
+    shape (semver.ComparePluginVersion senv a b) = (compareVersions a.toList b.toList).map ordInt ∧
+    (∀ c e, semver.ComparePluginVersion senv a b = (c, some e) → classOf e = .other) := by
+  refine ⟨source_ComparePluginVersion_refines_model senv h a b, ?_⟩
+  intro c e hce
+  unfold semver.ComparePluginVersion at hce
+  by_cases h1 : semver.IsValid senv a = true <;> by_cases h2 : semver.IsValid senv b = true <;>
+    simp [Id.run, GoLite.idPure, h1, h2, GoLite.errorf] at hce <;>
+    (obtain ⟨_, rfl⟩ := hce; decide)
+
+/-- non-vacuity: the translated tail runs - an existing 1.0.0, a lower new version, no overwrite -/
+private def toyEnv (c : Int) : plugin.Env :=
+  ⟨fun _ => (some ⟨1⟩, none), fun _ _ => (some ⟨"1.0.0"⟩, none), fun _ _ => (c, none),
+   fun _ => none, fun _ _ => none, fun _ _ => none⟩
+example : (plugin.installTail (toyEnv (-1)) false "foo" (some ⟨"0.9.0"⟩) true "exe" "dir" ⟨"path", false⟩ none).2.2 =
+    some (GoLite.errT "PluginDowngradeError" "") := by decide
+example : outcomeOf (plugin.installTail (toyEnv 1) false "foo" (some ⟨"1.1.0"⟩) false "exe" "dir" ⟨"path", false⟩ none) =
+    (.ok, some "1.0.0".toList) := by decide
+example : outcomeOf (plugin.installTail (toyEnv (-1)) true "foo" (some ⟨"0.9.0"⟩) true "exe" "dir" ⟨"path", true⟩ none) =
+    (.ok, some "1.0.0".toList) := by decide
+
+end Tie
 
 end NotationModel.C20
